@@ -16,6 +16,7 @@ import (
 	"sort"
 	"strings"
 	"testing"
+	"time"
 	"unicode/utf8"
 
 	"github.com/bmeg/grip/kvgraph"
@@ -490,8 +491,8 @@ type backend interface {
 type universe struct {
 	full                         obs.Universe
 	hostV, hostE, hostVL, hostEL []string
-	targets                      map[string]bool // graphs addressed by a write
-	idx                          []string        // "label|field" of the addIndex writes of the case
+	targets                      map[string]bool            // graphs addressed by a write
+	idx                          []string                   // "label|field" of the addIndex writes of the case
 	midx                         map[string]map[string]bool // model: graph -> accepted "label|field"
 	skipKeys                     map[string]bool            // graph \x00 key: index-listing observations already reported as diverged
 }
@@ -1083,6 +1084,17 @@ func runCase(t pbt.TB, c Case) {
 			if strings.HasSuffix(d.key, "[others]") {
 				// long listings: show what was added and what is missing
 				gotText, wantText = listDelta(d.got, d.want)
+				// "others" is state shared with earlier cases of the shard: a change is only
+				// this write's doing if the listing is stable - read twice more, it must
+				// still show the same change
+				time.Sleep(300 * time.Millisecond)
+				again := takeSnapshot(be, graphs, u, after)[d.graph][d.key]
+				time.Sleep(300 * time.Millisecond)
+				again2 := takeSnapshot(be, graphs, u, after)[d.graph][d.key]
+				if again != d.got || again2 != d.got {
+					pbt.Inconclusive(t, "the listing of graphs/indices not in play changes between reads (activity outside this case)")
+					continue
+				}
 			}
 			if !disc(sig, "%s (accepted=%v %s): graph %q observation %q: stored=%s model=%s (%d differences in all)", where, accepted, clip(strings.Join(strings.Fields(detail), " "), 300), gname, clip(fmt.Sprintf("%+q", d.key), 200), gotText, wantText, len(diffs)) {
 				continue
